@@ -1,9 +1,238 @@
+//! `srcmc`: bounded-exhaustive directory trees, each turned into every source kind of
+//! `assets_manager` (directory on disk, zip, tar, embedded) and checked on the real code against the
+//! generating tree (properties C04 and C11, see /verif/DESIGN.md §3).
+mod c04;
+mod c11;
+mod mk;
+mod srcs;
 mod tree;
+
+/// the real expansion code of `embed!`, compiled into this crate
+#[allow(dead_code)]
+#[path = "/repo/macros/src/embedded.rs"]
+mod embedded_macro;
+
+use serde_json::{json, Value};
+use srcs::Case;
+use std::time::Duration;
+use vcommon::{Args, SubResult};
+
+/// The real `embed!` on a checked-in fixture tree: cross-check of the run-time interpretation.
+static FIXTURE: assets_manager::source::RawEmbedded<'static> = assets_manager::source::embed!("fixture");
+
+fn fixture_crosscheck(res: &mut SubResult) -> Result<(), String> {
+    let dir = std::path::Path::new(env!("CARGO_MANIFEST_DIR")).join("fixture");
+    let store = mk::embed_expand(&dir)?;
+    let files_rt: Vec<((&str, &str), &[u8])> = store.files.iter().map(|((i, e), b)| ((i.as_str(), e.as_str()), b.as_slice())).collect();
+    let dirs_rt: Vec<(String, Vec<mk::EmbEnt>)> = store.dirs.clone();
+    let dirs_ct: Vec<(String, Vec<mk::EmbEnt>)> = FIXTURE
+        .dirs
+        .iter()
+        .map(|(i, es)| {
+            (
+                i.to_string(),
+                es.iter()
+                    .map(|e| match e {
+                        assets_manager::source::DirEntry::File(a, b) => mk::EmbEnt::File(a.to_string(), b.to_string()),
+                        assets_manager::source::DirEntry::Directory(a) => mk::EmbEnt::Dir(a.to_string()),
+                    })
+                    .collect(),
+            )
+        })
+        .collect();
+    let same = FIXTURE.files == &files_rt[..] && dirs_ct == dirs_rt;
+    res.traces_validated += 1;
+    res.note("real embed!(\"fixture\") vs run-time interpretation of expand_dir", json!(if same { "identical tables" } else { "DIFFERENT" }));
+    if !same {
+        let rep = json!({"subcheck": "c04_sources", "pkey": "c04:embed-crosscheck:embedded:tables", "tree": "fixture", "query": "embed!(\"fixture\")", "detail": "compile-time tables differ from the interpreted expansion (fixture changed after the build, or the interpreter is wrong)"});
+        res.violation_ranked("c04:embed-crosscheck:embedded:tables".into(), format!("compile-time {:?} / run-time {:?}", FIXTURE.dirs, dirs_rt), rep, 0);
+    }
+    Ok(())
+}
+
+fn shapes_for(args: &mut Args, max_entries: usize) -> (Vec<tree::Shape>, Option<std::path::PathBuf>) {
+    // workers get the list from the parent (the enumeration of <= 6 entries takes a while)
+    if let Some(p) = args.rest.iter().position(|a| a == "--shapes") {
+        let f = &args.rest[p + 1];
+        let txt = std::fs::read_to_string(f).unwrap_or_else(|e| {
+            eprintln!("MACHINERY: cannot read shape list {f}: {e}");
+            std::process::exit(2)
+        });
+        let v: Vec<tree::Shape> = txt.lines().map(|l| tree::decode(l).expect("shape line")).collect();
+        return (v, None);
+    }
+    let v = tree::all_shapes(max_entries);
+    let path = std::env::temp_dir().join(format!("srcmc-shapes-{}-{}.txt", std::process::id(), args.subcheck));
+    let mut txt = String::new();
+    for s in &v {
+        tree::encode(s, &mut txt);
+        txt.push('\n');
+    }
+    if let Err(e) = std::fs::write(&path, txt) {
+        eprintln!("MACHINERY: cannot write shape list: {e}");
+        std::process::exit(2)
+    }
+    args.rest.push("--shapes".into());
+    args.rest.push(path.display().to_string());
+    (v, Some(path))
+}
+
+fn cases_of(shapes: &[tree::Shape]) -> Vec<Case> {
+    let mut v = Vec::with_capacity(shapes.len() * 4);
+    for s in shapes {
+        for r in 0..4 {
+            v.push(Case { shape: s.clone(), name_rot: r, content_rot: r % 3 });
+        }
+    }
+    v
+}
+
+const INSTANCES: &str = "each shape is instantiated 4 times: name class i -> NAMES[(i+r) mod 4], NAMES = [a, b, 'é x', 200-char name], and file j (depth-first) gets content kind (j+r) mod 3 of {empty, short, 70 KiB}, r = 0..3 — every special name occurs in every class position and every file position sees every content kind";
+
+fn run_sub(mut args: Args) -> SubResult {
+    let c04 = args.subcheck == "c04_sources";
+    let prop = if c04 { "C04" } else { "C11" };
+    let mut res = SubResult::new(prop, &args.subcheck);
+    let max_entries = match (c04, args.thorough()) {
+        (_, false) => 4,
+        (true, true) => 6,
+        (false, true) => 5,
+    };
+    let is_worker = args.worker.is_some();
+    let (shapes, tmpfile) = shapes_for(&mut args, max_entries);
+    let cases = cases_of(&shapes);
+    res.bound = if c04 {
+        format!(
+            "all {} canonical tree shapes with <= {max_entries} entries, depth <= 3, 4 name classes x extensions {{\"\",x,y}} (file `n` and directory `n` never coexist; `n.x` and `n/` do); {INSTANCES}. Per tree: FileSystem; Embedded via the real expand_dir; zip {{stored,deflated}} x {{dir members, none}} x {{plain, ./ (+ a `./` root member)}} x member orders (all permutations for <= 5 members, else sorted/reversed/dirs-last) in memory + 1 plain-writer archive in memory and file-backed; tar {{dir members, none}} x {{plain, ./}} x the same orders, GNU long-name members for every name > 100 bytes, in memory + 1 tar::Builder archive in memory and file-backed. Queries: every id of the tree, every proper prefix, \"\", 2 absent ids x extensions {{\"\",x,y}} x read/exists(File)/exists(Directory)/read_dir",
+            shapes.len()
+        )
+    } else {
+        format!(
+            "all {} canonical tree shapes with <= {max_entries} entries (same generator as c04_sources); {INSTANCES}. Per tree: FileSystem, Embedded (real expand_dir), zip and tar {{dir members, none}} x {{sorted, reversed}} in memory + file-backed; asset types with extension lists [x], [x,y] (string loader), [\"\"], [x,\"\"], [] each also as Arc<T>; every directory id incl. \"\", one absent id and every file id: load_dir, load_rec_dir, iter on an AssetCache (TXY also on a LocalAssetCache); iter_cached after pre-loading every subset of <= 3 ids of the sub-tree (fresh cache each); read_dir fault injected at every directory in turn",
+            shapes.len()
+        )
+    };
+    res.rule = "cases = (canonical shape, rotation r) enumerated simplest-first (entries, depth, node order); a shape is canonical up to permutation of the 4 name classes; distinct = hashes of the normalised answer tables observed (c04) / expected listing tables (c11); evaluations = (tree, source instance[, asset type, cache]) pairs compared with the oracle".into();
+    if !c04 && args.thorough() {
+        res.cap("c11 thorough stops at 5 entries (c04_sources covers 6): the cache-level work per tree is ~10x that of c04");
+    }
+    let total = cases.len();
+    let timeout = Duration::from_secs(if args.thorough() { 3000 } else { 600 });
+    let mut res = vcommon::run_cases(&args, res, total, timeout, |idx, res| {
+        let r = if c04 { c04::run_case(&cases[idx], res) } else { c11::run_case(&cases[idx], res) };
+        if let Err(e) = r {
+            eprintln!("MACHINERY: case {idx}: {e}");
+            std::process::exit(2);
+        }
+        if idx % 97 == 3 {
+            let t = tree::Tree::instantiate(&cases[idx].shape, cases[idx].name_rot, cases[idx].content_rot);
+            res.sample(json!({"case": idx, "tree": t.render(), "rotation": cases[idx].name_rot}));
+        }
+    });
+    debug_assert!(!is_worker);
+    if let Some(p) = tmpfile {
+        let _ = std::fs::remove_file(p);
+    }
+    if c04 {
+        if let Err(e) = fixture_crosscheck(&mut res) {
+            eprintln!("MACHINERY: fixture cross-check: {e}");
+            std::process::exit(2);
+        }
+        res.note(
+            "schedules",
+            json!("2 readers x 2 calls on the file-backed Zip and Tar of every tree: all 6 interleavings at call granularity, executed by two real threads taking turns. No finer interleaving exists to enumerate: Zip::read / Tar::read work on a private clone of the reader (ZipArchive clone / SyncFile clone), SyncFile uses positional reads (pread) and the index maps are immutable after open — there is no shared mutable state and no synchronisation operation inside a call."),
+        );
+    }
+    res.note("shapes", json!(shapes.len()));
+    res.note("cases", json!(total));
+    srcs::finalize_keys(&mut res);
+    res
+}
+
+fn replay(file: &str) -> i32 {
+    let txt = match std::fs::read_to_string(file) {
+        Ok(t) => t,
+        Err(e) => {
+            eprintln!("cannot read {file}: {e}");
+            return 2;
+        }
+    };
+    let w: Value = match serde_json::from_str(&txt) {
+        Ok(v) => v,
+        Err(e) => {
+            eprintln!("bad witness file: {e}");
+            return 2;
+        }
+    };
+    let r = w.get("replay").unwrap_or(&w);
+    let g = |k: &str| r.get(k).and_then(|x| x.as_str()).unwrap_or("").to_string();
+    let (sub, pkey) = (g("subcheck"), g("pkey"));
+    println!("replaying {}  [{}]", w.get("key").and_then(|k| k.as_str()).unwrap_or(&pkey), sub);
+    let mut res = SubResult::new("", &sub);
+    if pkey == "c04:embed-crosscheck:embedded:tables" {
+        if let Err(e) = fixture_crosscheck(&mut res) {
+            eprintln!("MACHINERY: {e}");
+            return 2;
+        }
+    } else {
+        let Some(shape) = tree::decode(&g("shape")) else {
+            eprintln!("bad witness: no shape");
+            return 2;
+        };
+        let case = Case { shape, name_rot: r["name_rot"].as_u64().unwrap_or(0) as usize, content_rot: r["content_rot"].as_u64().unwrap_or(0) as usize };
+        let t = tree::Tree::instantiate(&case.shape, case.name_rot, case.content_rot);
+        println!("tree {} (rotation {}), all sources of the sub-check are rebuilt and queried", t.render(), case.name_rot);
+        let out = match sub.as_str() {
+            "c04_sources" => c04::run_case(&case, &mut res),
+            "c11_dirs" => c11::run_case(&case, &mut res),
+            o => {
+                eprintln!("unknown subcheck {o:?} in witness");
+                return 2;
+            }
+        };
+        if let Err(e) = out {
+            eprintln!("MACHINERY: {e}");
+            return 2;
+        }
+    }
+    let mut hit = false;
+    for v in &res.violations {
+        let mark = if v.key == pkey { "  <== the recorded violation" } else { "" };
+        println!("observed {}: {}{}", v.key, v.desc, mark);
+        hit |= v.key == pkey;
+    }
+    if hit {
+        println!("REPRODUCED");
+        1
+    } else {
+        println!("not reproduced ({} other violations on this tree)", res.violations.len());
+        0
+    }
+}
+
 fn main() {
-    for n in 0..=6 {
-        let t = std::time::Instant::now();
-        let s = tree::all_shapes(n);
-        println!("{n}: {} shapes in {:?}", s.len(), t.elapsed());
-        if n == 2 { for x in &s { println!("  {}", tree::Tree::instantiate(x,0,0).render()); } }
+    let args = vcommon::parse_args();
+    if let Some(f) = &args.replay {
+        std::process::exit(replay(f));
+    }
+    match args.subcheck.as_str() {
+        "c04_sources" | "c11_dirs" => {
+            let out = args.out.clone();
+            let res = run_sub(args);
+            match out {
+                Some(o) => res.write(&o),
+                None => println!("{}", serde_json::to_string_pretty(&res).unwrap()),
+            }
+        }
+        "shapes" => {
+            for n in 0..=6 {
+                let t = std::time::Instant::now();
+                println!("<= {n} entries: {} shapes ({:?})", tree::all_shapes(n).len(), t.elapsed());
+            }
+        }
+        o => {
+            eprintln!("unknown subcheck {o:?} (c04_sources, c11_dirs)");
+            std::process::exit(2)
+        }
     }
 }
